@@ -85,9 +85,23 @@ def io_history(rng):
                 # StrandS is a subclass of ComplexS with its own registry: only its own kind is checked
                 if len(c._instanceNames) and c not in expect.values():
                     bad.append(f"registry of {c.__name__} is not empty although it is not configured")
+    # closing the IO session does not touch what the result holds: every held object stays the singleton of its name
+    # in the class that was configured
+    objectio.clear_io_objects()
+    for k, f in (("D", "domains"), ("S", "strands"), ("C", "complexes"), ("M", "macrostates")):
+        for n, o in out[f].items():
+            try:
+                again = expect[k](n) if k == "D" else expect[k](None, name=n) if k == "S" else \
+                    expect[k](None, None, n) if k == "C" else expect[k](None, n)
+            except Exception as e:
+                bad.append(f"after clear_io_objects() the held {f[:-1]} {n} cannot be looked up: {type(e).__name__}")
+                break
+            if again is not o:
+                bad.append(f"after clear_io_objects() the held {f[:-1]} {n} is no longer the singleton of its name")
+                break
     out = None
     fresh()
-    return {"steps": steps, "what": bad[:4]} if bad else None
+    return {"steps": steps + ["read_pil(DOC)", "clear_io_objects()", "look-ups by name"], "what": bad[:4]} if bad else None
 
 
 def failing_ctor(kind, when):
